@@ -39,6 +39,7 @@ func c22(r *sim.R) *sim.Violation {
 	req := pkt{v4: v4, sip: a, dip: b, kind: "ok", size: uint32(60 + t.Draw(1000)), out: t.Draw(2) == 0}
 	rsp := pkt{v4: v4, sip: b, dip: a, kind: "ok", size: uint32(60 + t.Draw(1000)), out: !req.out}
 	decisive := true
+	sameOrder := true // the stored orientation must not depend on which packet is seen first
 	switch kind {
 	case "tcp-handshake":
 		req.proto, rsp.proto = 6, 6
@@ -67,13 +68,32 @@ func c22(r *sim.R) *sim.Violation {
 		}
 		rsp.proto = req.proto
 		req.sport, req.dport = sim.Pick(t, classPorts), sim.Pick(t, classPorts)
-		if t.Bool() {
+		switch t.Draw(4) {
+		case 0:
 			// any client port of the ephemeral range against any server port below it (the class
 			// boundaries are covered by classPorts, the bulk of the 2^32 pairs by uniform draws)
 			req.sport, req.dport = uint16(32768+t.Draw(32768)), uint16(1+t.Draw(32767))
+		case 1:
+			// both ports of one class (both ephemeral or both below): the heuristics order them
+			base, span := 32768, 32768
+			if t.Bool() {
+				base, span = 1, 32767
+			}
+			req.sport, req.dport = uint16(base+t.Draw(span)), uint16(base+t.Draw(span))
 		}
-		// decisive only if exactly one side uses an ephemeral port (>= 32768) and it is the client
+		// the requester is known to be the client only if exactly one side uses an ephemeral port
+		// (>= 32768) and it is the client; with two ports of one class the heuristics still give
+		// an answer (the smaller port is taken for the service), which must be the same whichever
+		// packet comes first - unless the ports are equal, where there is nothing to go by
 		decisive = req.sport >= 32768 && req.dport < 32768
+		// (goProbe drops the client port of conversations with a "common" service port - 53, 80,
+		// 443, 445, 8080 over TCP, 53 and 443 over UDP; between two such ports both are dropped
+		// and the heuristics have nothing to go by either)
+		common := map[uint16]bool{53: true, 443: true}
+		if req.proto == 6 {
+			common[80], common[445], common[8080] = true, true, true
+		}
+		sameOrder = req.sport != req.dport && !(common[req.sport] && common[req.dport])
 	}
 	rsp.sport, rsp.dport = req.dport, req.sport
 	// follow-up packets of the same conversation
@@ -128,7 +148,7 @@ func c22(r *sim.R) *sim.Violation {
 		return r.Report(&sim.Violation{Clause: "capture-stalls", Signature: "two packets", Detail: stall})
 	}
 	w.teardown(mgr)
-	r.Nontriv = decisive
+	r.Nontriv = decisive || sameOrder
 	orient := func(recs []record) string {
 		var o []string
 		for _, rec := range recs {
@@ -142,7 +162,7 @@ func c22(r *sim.R) *sim.Violation {
 		return r.Report(&sim.Violation{Clause: "conversation-not-in-one-record", Signature: kind,
 			Detail: fmt.Sprintf("request %s, response %s: request-first run holds %v, response-first run holds %v", req, rsp, live["eth0"], live["eth1"])})
 	}
-	if !decisive {
+	if !decisive && !sameOrder {
 		r.Probe("non_decisive_pair")
 		return nil
 	}
@@ -154,6 +174,10 @@ func c22(r *sim.R) *sim.Violation {
 	if g0 != g1 {
 		return r.Report(&sim.Violation{Clause: "orientation-depends-on-first-packet", Signature: kind,
 			Detail: fmt.Sprintf("request %s\nresponse %s\nrequest seen first: stored %s; response seen first: stored %s", req, rsp, g0, g1)})
+	}
+	if !decisive {
+		r.Probe("ports_of_one_class_ordered")
+		return nil
 	}
 	if g0 != want {
 		return r.Report(&sim.Violation{Clause: "stored-from-responder-to-requester", Signature: kind,
